@@ -2,7 +2,7 @@ use anyhow::Result;
 use core::panic;
 use heck::{ToShoutySnakeCase, ToUpperCamelCase};
 use std::{
-    collections::{HashMap, HashSet},
+    collections::{BTreeMap, BTreeSet},
     fmt::Write,
     mem,
     ops::Deref,
@@ -102,7 +102,7 @@ impl Opts {
 struct InterfaceFragment {
     src: String,
     ffi: String,
-    builtins: HashSet<&'static str>,
+    builtins: BTreeSet<&'static str>,
 }
 
 impl InterfaceFragment {
@@ -126,7 +126,7 @@ pub struct MoonBit {
     // dependencies between packages
     pkg_resolver: PkgResolver,
     // Wasm export name -> (exported function name, func)
-    export: HashMap<String, (String, String)>,
+    export: BTreeMap<String, (String, String)>,
 
     export_ns: Ns,
 
@@ -149,7 +149,7 @@ impl MoonBit {
             resolve,
             name,
             direction,
-            ffi_imports: HashSet::new(),
+            ffi_imports: BTreeSet::new(),
             derive_opts,
             interface,
         }
@@ -379,7 +379,7 @@ impl WorldGenerator for MoonBit {
         files.push(&format!("{directory}/import.mbt"), indent(&src).as_bytes());
         // FFI
         let mut ffi = Source::default();
-        let mut builtins: HashSet<&'static str> = HashSet::new();
+        let mut builtins: BTreeSet<&'static str> = BTreeSet::new();
         wit_bindgen_core::generated_preamble(&mut ffi, VERSION);
         uwriteln!(ffi, "{}", self.import_world_fragment.ffi);
         builtins.extend(self.import_world_fragment.builtins.iter());
@@ -574,7 +574,7 @@ struct InterfaceGenerator<'a> {
     src: String,
     ffi: String,
     // Collect of FFI imports used in this interface
-    ffi_imports: HashSet<&'static str>,
+    ffi_imports: BTreeSet<&'static str>,
 
     world_gen: &'a mut MoonBit,
     resolve: &'a Resolve,
